@@ -190,6 +190,9 @@ func runC11(rc *RunCtx) {
 			wg.Add(1)
 			go func(r int) {
 				defer wg.Done()
+				// replicas start 1.3 s apart: every history is executed in a different wall-clock second
+				// on each of them, so a value derived from the wall clock cannot coincide by accident
+				time.Sleep(time.Duration(r) * 1300 * time.Millisecond)
 				of := filepath.Join(dir, fmt.Sprintf("%s.replica%d.json", name, r))
 				cmd := exec.Command(self, "replica", jobFile, of)
 				cmd.Env = append(os.Environ(), fmt.Sprintf("GOMAXPROCS=%d", max(2, 16/replicas)))
@@ -278,6 +281,9 @@ func c11Explain(self, jobFile, dir, name string, idx int, events []string, path 
 	var tr [2][]string
 	for r := 0; r < 2; r++ {
 		of := filepath.Join(dir, fmt.Sprintf("%s.explain%d.json", name, r))
+		if r > 0 {
+			time.Sleep(1300 * time.Millisecond) // a different wall-clock second than the first re-run
+		}
 		cmd := exec.Command(self, "replica", jobFile, of, fmt.Sprint(idx))
 		if err := cmd.Run(); err != nil {
 			return "(could not re-run for explanation: " + err.Error() + ")"
